@@ -108,6 +108,10 @@ fn alpha(cfg: &Cfg) -> Vec<Op> {
     v.push(Op::spelled(Cup(None, None), "\u{9b}2;2 3H\u{9b}H"));
     v.push(Op::spelled(Cuf(None), "\x1b[3:4$~\u{9b}C"));
     v.push(Op::spelled(Cha(Some(2)), "\u{9b}5?G\x18\u{9b}2G"));
+    // ... nor whatever odd parameter shapes an earlier (complete, harmless) sequence had
+    v.push(Op::spelled(Cud(Some(2)), "\x1b[0:4m\x1b[2B"));
+    v.push(Op::spelled(Cup(Some(2), Some(2)), "\x1b[8;:2m\x1b[2;2H"));
+    v.push(Op::spelled(Cuf(Some(2)), "\x1b[:;0:0:7;:m\u{9b}2C"));
     // parameters written with leading zeros: the value is what the digits say, however many
     v.push(Op::spelled(Cud(Some(2)), "\x1b[000002B"));
     v.push(Op::spelled(Cuf(Some(2)), "\x1b[0000000002C"));
